@@ -104,7 +104,7 @@ package search
 //@   concl lineConsOK(s, a, off, n)
 //@ # a line depends only on the array segment it occupies: by induction on its length
 //@ lemma lineSeg(s $BS, a $MvArr, i int, b $MvArr, j int, n int)
-//@   props C07
+//@   props C06 C07
 //@   induct n
 //@   hyp 0 <= n && n <= 4096 && 0 <= i && i <= 4096 && 0 <= j && j <= 4096 && i + n <= 4096 && j + n <= 4096 && forall(k, i, i + n, a[k] == b[k + (j - i)])
 //@   use lineNil(s, a, i)
@@ -123,7 +123,7 @@ package search
 //@ define pvShape(pv, from) = all(q, 0, 63, implies(q >= int(from), 0 <= pv.depth[q] && int(pv.depth[q]) <= 63 - q))
 //@
 //@ func (*pv).insert
-//@   props C07
+//@   props C06 C07
 //@   requires 0 <= ply && ply < 63 && 0 <= pv.depth[ply+1] && int(pv.depth[ply+1]) <= 62 - int(ply)
 //@   ensures [head]   pv.moves[rowAt(ply)] == m && pv.depth[ply] == old(pv.depth[ply+1]) + 1
 //@   ensures [tail]   forall(k, 0, int(old(pv.depth[ply+1])), pv.moves[rowAt(ply) + 1 + k] == old(pv.moves[rowAt(ply+1) + k]))
@@ -138,7 +138,7 @@ package search
 //@   nopanic
 //@
 //@ func (*pv).setNull
-//@   props C07
+//@   props C06 C07
 //@   requires 0 <= ply && ply < 64
 //@   ensures [null]   pv.depth[ply] == 0 && all(q, 0, 63, implies(q != int(ply), pv.depth[q] == old(pv.depth[q])))
 //@   modifies pv.depth
@@ -146,7 +146,7 @@ package search
 //@
 //@ # putting an accepted move in front of a line that is valid after it gives a valid line
 //@ lemma lineInsert(s $BS, m $Mv, a $MvArr, a2 $MvArr, i int, j int, l int)
-//@   props C07
+//@   props C06 C07
 //@   use lineCons(s, a2, i, l + 1)
 //@   use lineSeg(mkS(s, m), a2, i + 1, a, j, l)
 //@   hyp l >= 0 && l < 64 && 0 <= i && i <= 2080 && 0 <= j && j <= 2080 && accS(s, m) && lineS(mkS(s, m), a, j, l) && a2[i] == m && forall(k, i + 1, i + 1 + l, a2[k] == a[k + (j - (i + 1))])
@@ -154,7 +154,7 @@ package search
 //@
 //@ # quiescence never touches the PV buffer and restores the (abstract) board (proved here, against the body)
 //@ func (*Search).quiescence view pv
-//@   props C07
+//@   props C06 C07
 //@   views pv search
 //@   allow-extern fmt. time. os. strings. io.
 //@   requires searchInv(s)
@@ -171,7 +171,7 @@ package search
 //@ define rowsAbove(s, ply) = all(q, 0, 63, implies(q < int(ply), s.pv.depth[q] == old(s.pv.depth[q])))
 //@
 //@ func (*Search).alphaBeta view pv
-//@   props C07
+//@   props C06 C07
 //@   views pv search
 //@   allow-extern fmt. time. os. strings. io.
 //@   requires searchInv(s) && 0 <= ply && ply <= 63
@@ -208,7 +208,7 @@ package search
 //@ # ---- the move returned by the iterative deepening and its ponder move
 //@ define moveOK(mv, pd) = implies(mv != 0, accS(gbs, uint16(mv))) && implies(pd != 0, accS(mkS(gbs, uint16(mv)), uint16(pd)))
 //@ func (*Search).iterativeDeepen view pv
-//@   props C07
+//@   props C06 C07
 //@   views pv search
 //@   allow-extern fmt. time. os. strings. io.
 //@   timeout 300
